@@ -285,9 +285,9 @@ def parts(tier):
     out.append(Part('slow-write-then-reconnect', sc, run_slow_then_reconnect, what='a write that times out in mid-message over a slow short-writing transport, then connect() again (with/without close()) and a command',
                     bound='%d cases' % len(sc), min_outcomes=2))
     deep = tier == 'thorough'
-    out.append(Part('two-devices', [{'twin': 'sync'}], run_two_devices, {'sched': 2 if deep else 1, 'wcap': 1, 'dev-order': 0}, split=2, min_outcomes=1,
+    out.append(Part('two-devices', [{'twin': 'sync'}], run_two_devices, dict({'sched': 2 if deep else 1, 'wcap': 1, 'dev-order': 0}, **({'total': 2} if deep else {})), split=2, min_outcomes=1,
                     what='two device objects used from two threads, one over a short-writing transport: all schedules with <=%d preemption(s) x one short write' % (2 if deep else 1),
-                    bound='preemptions <= %d, short writes <= 1' % (2 if deep else 1)))
+                    bound='preemptions <= %d, short writes <= 1%s' % (2 if deep else 1, ', at most 2 deviations in total' if deep else '')))
     out.append(Part('two-devices-async', [{'twin': 'async'}], run_two_devices, {'io-order': 3 if deep else 2, 'dev-order': 0}, split=2, min_outcomes=1,
                     what='two device objects used from two asyncio tasks on one loop: every placement of <=%d deviations from the default I/O completion order' % (3 if deep else 2),
                     bound='io-order deviations <= %d' % (3 if deep else 2)))
